@@ -325,7 +325,41 @@ func (rr *rcRun) runSetSequence(rng *rand.Rand, cacheType string, shard uint64, 
 	}
 	for s := 0; s < steps; s++ {
 		op := ""
-		switch k := rng.Intn(12); k {
+		switch k := rng.Intn(13); k {
+		case 12:
+			// replace the whole fragment from an archive of another fragment (the
+			// path a resize uses): afterwards every read reflects the archive
+			g := mustOpenFragment("i", "f", viewStandard, shard, cacheType)
+			mg := rcModel{}
+			for n := rng.Intn(6); n > 0; n-- {
+				r, c := pick()
+				if _, err := g.setBit(r, c); err == nil {
+					mg.set(r, c)
+				}
+			}
+			var buf bytes.Buffer
+			_, werr := g.WriteTo(&buf)
+			rr.closeFragment(g)
+			op = fmt.Sprintf("ReadFrom(archive of %v)", mg)
+			rr.seq = append(rr.seq, op)
+			if werr != nil {
+				rr.fail([]string{"C07"}, "archive-write-error", werr.Error())
+				break
+			}
+			if _, err := f.ReadFrom(&buf); err != nil {
+				rr.fail([]string{"C07"}, "archive-read-error", err.Error())
+				break
+			}
+			for r := range m {
+				delete(m, r)
+			}
+			for r, cs := range mg {
+				for c := range cs {
+					m.set(r, c)
+				}
+			}
+			rr.nontriv = true
+			op = "readFrom"
 		case 0, 1, 2:
 			r, c := pick()
 			op = fmt.Sprintf("setBit(%d,%d)", r, c)
